@@ -9,6 +9,7 @@ import TonVerif.Proofs.Hashmap
 import TonVerif.Proofs.SrcHashmap
 import TonVerif.Proofs.SrcHashmapSer
 import TonVerif.Proofs.SrcHashmapGlue
+import TonVerif.Proofs.HashmapEmbed
 
 namespace TonVerif.Properties.C10
 open TonVerif TonVerif.Model TonVerif.Model.Hashmap TonVerif.Spec.Hashmap TonVerif.Proofs.Hashmap
@@ -359,6 +360,94 @@ example : (parse_hashmap 4 (Py.beginParse exCell) 1).map (·.1) =
   c10_src_parse_any (by decide) exCell_valid 4 (by decide)
 example : parse_hashmap 6 (Py.beginParse (.mk (-1) [true, true, true, true, true] [])) 2 = none := by rfl
 example : (deserialize_hml ⟨-1, [true, true, true, true, false, true], []⟩ 2).map (·.1) = some (2, [true, true]) := by rfl
+
+/-! ### a dictionary as a FIELD of a larger constructor (round 10)
+
+`Hashmap n X` (unlike `HashmapE`) is stored INLINE: its root edge lives in the caller's cell, which may carry further bits and
+references behind the dictionary (`holder#_ entries:(Hashmap 16 X) owner:^Cell`).  `ValidHMK.fork` describes a fork in a cell of
+its own (exactly the label, exactly two references); these statements cover the root that does not own its cell. -/
+section Embedded
+open TonVerif.Proofs.HashmapEmbed TonVerif.Generated.HashmapSrc TonVerif.Proofs.SrcHashmap
+
+/-- EMBEDDED DICTIONARY (hand model).  A fork root (label `lb` of `s`, spec-valid children `l`, `r`, any label constructors,
+pruned edges allowed) followed IN THE SAME CELL by ANY further bits `postB` and ANY further references `postR`:
+`parse_hashmap` / `HashMap.parse` / `Slice.load_hashmap` on that slice return exactly the leaves of the non-pruned part.  (A leaf
+root is `c10_parse_any` itself: `ValidHMK.leaf` lets the value be everything behind the label.)  A `HashmapE` among other fields:
+`load_dict` / `preload_dict` on `1 ^root …` give `HashMap.parse(root)` whatever bits and references follow, on `0 …` None. -/
+theorem c10_parse_embedded {ok : Nat → Bits → LabelKind → Prop} {p : Bool} {n m : Nat} {s : Bits} {k : LabelKind} {lb : Bits}
+    {l r : Cell} {kvl kvr : List (Bits × Val)}
+    (hl : LabelEnc n s k lb) (hn : n = s.length + 1 + m) (hL : ValidHMK ok p m l kvl) (hR : ValidHMK ok p m r kvr)
+    (postB : Bits) (postR : List Cell) :
+    parseHashmap (.mk (-1) (lb ++ postB) (l :: r :: postR)) n = some (kvl.map (pre (s ++ [false])) ++ kvr.map (pre (s ++ [true]))) ∧
+    hashMapParse (.mk (-1) (lb ++ postB) (l :: r :: postR)) n
+      = .dict (intKeys (kvl.map (pre (s ++ [false])) ++ kvr.map (pre (s ++ [true])))) ∧
+    (∀ c : Cell, loadDict (true :: postB) (c :: postR) n = hashMapParse c n) ∧
+    loadDict (false :: postB) postR n = .none := by
+  have h := parseEdge_fork_trailing hl hn hL hR postB postR []
+  rw [map_pre_nil] at h
+  refine ⟨h, ?_, fun c => rfl, rfl⟩
+  simp only [hashMapParse, parseHashmap, h]
+  simp
+
+/-- EXACT CONSUMPTION (regenerated from parse.py).  On the same slice the code of `parse_hashmap` returns those leaves AND leaves
+the caller's slice standing exactly behind the dictionary: the bits `postB` and the references `postR` - the two children
+consumed, nothing else - for every fuel ≥ 2n+2.  So the fields after an inline `Hashmap` read back. -/
+theorem c10_src_parse_embedded {ok : Nat → Bits → LabelKind → Prop} {p : Bool} {n m : Nat} {s : Bits} {k : LabelKind} {lb : Bits}
+    {l r : Cell} {kvl kvr : List (Bits × Val)}
+    (hl : LabelEnc n s k lb) (hn : n = s.length + 1 + m) (hL : ValidHMK ok p m l kvl) (hR : ValidHMK ok p m r kvr)
+    (postB : Bits) (postR : List Cell) (fuel : Nat) (hf : 2 * n + 2 ≤ fuel) :
+    parse_hashmap fuel ⟨-1, lb ++ postB, l :: r :: postR⟩ (n : Int)
+      = some ((kvl.map (pre (s ++ [false])) ++ kvr.map (pre (s ++ [true]))).map (fun q => (q.1, valSlice q.2)), ⟨-1, postB, postR⟩) := by
+  have h1 := c10_src_parse_hashmap fuel (.mk (-1) (lb ++ postB) (l :: r :: postR)) n hf
+  rw [(c10_parse_embedded hl hn hL hR postB postR).1] at h1
+  simp only [Py.beginParse, Option.map_some] at h1
+  rcases hq : parse_hashmap fuel ⟨-1, lb ++ postB, l :: r :: postR⟩ (n : Int) with _ | ⟨res, sl⟩
+  · rw [hq] at h1; simp at h1
+  · rw [hq] at h1
+    simp only [Option.map_some, Option.some.injEq] at h1
+    subst h1
+    unfold parse_hashmap at hq
+    simp only [Option.bind_eq_bind, Option.pure_def] at hq
+    obtain ⟨a, ha1, ha2⟩ := Option.bind_eq_some_iff.1 hq
+    obtain ⟨sl0, d0, p0⟩ := a
+    obtain ⟨n', s', rest', hd, hsl⟩ := src_parse_final_slice fuel (-1) (lb ++ postB) (l :: r :: postR) n [] [] sl0 d0 p0 ha1
+    rw [deserializeHml_enc hl] at hd
+    simp only [Option.some.injEq, Prod.mk.injEq] at hd ha2
+    obtain ⟨rfl, rfl, rfl⟩ := hd
+    have hne : (n : Int) - (s.length : Int) ≠ 0 := by omega
+    simp only [hne, ne_eq, not_false_eq_true, and_self, if_true, List.drop_succ_cons, List.drop_zero] at hsl
+    rw [← ha2.2, hsl]
+
+/-- non-vacuity: `exCell`'s root (label `hml_long` of 0 bits, two valid leaves) followed by the bits `101` and a third reference:
+parsed to the same two leaves, the slice left on `101` and that reference -/
+example : parse_hashmap 4 ⟨-1, [true, false, false] ++ [true, false, true],
+      .mk (-1) [true, true, true, true, true, true, true] [] :: .mk (-1) [true, false, false, false, false, false] [] :: [exCell]⟩ 1
+    = some ([([false], ⟨-1, [true, true, true, true], []⟩), ([true], ⟨-1, [false, false, false, false], []⟩)], ⟨-1, [true, false, true], [exCell]⟩) := by
+  have l1 : LabelEnc 1 [] .long [true, false, false] := by
+    have := LabelEnc.long (m := 1) (s := []) (by simp); simpa [lenBits, bitLength, natToBits] using this
+  have l2 : LabelEnc 0 [] .same [true, true, true] := by
+    have := LabelEnc.same (m := 0) (s := []) true (by simp) (by simp); simpa [lenBits, bitLength, natToBits] using this
+  have l3 : LabelEnc 0 [] .long [true, false] := by
+    have := LabelEnc.long (m := 0) (s := []) (by simp); simpa [lenBits, bitLength, natToBits] using this
+  have a := ValidHMK.leaf (ok := fun _ _ _ => True) (p := false) (vb := [true, true, true, true]) (vr := []) l2 trivial rfl
+  have b := ValidHMK.leaf (ok := fun _ _ _ => True) (p := false) (vb := [false, false, false, false]) (vr := []) l3 trivial rfl
+  have := c10_src_parse_embedded (m := 0) l1 (by simp) a b [true, false, true] [exCell] 4 (by decide)
+  simpa [pre, valSlice] using this
+example : hashMapParse (.mk (-1) ([true, false, false] ++ [true, false, true])
+      (.mk (-1) [true, true, true, true, true, true, true] [] :: .mk (-1) [true, false, false, false, false, false] [] :: [exCell])) 1
+    = .dict [(0, ([true, true, true, true], [])), (1, ([false, false, false, false], []))] := by
+  have l1 : LabelEnc 1 [] .long [true, false, false] := by
+    have := LabelEnc.long (m := 1) (s := []) (by simp); simpa [lenBits, bitLength, natToBits] using this
+  have l2 : LabelEnc 0 [] .same [true, true, true] := by
+    have := LabelEnc.same (m := 0) (s := []) true (by simp) (by simp); simpa [lenBits, bitLength, natToBits] using this
+  have l3 : LabelEnc 0 [] .long [true, false] := by
+    have := LabelEnc.long (m := 0) (s := []) (by simp); simpa [lenBits, bitLength, natToBits] using this
+  have a := ValidHMK.leaf (ok := fun _ _ _ => True) (p := false) (vb := [true, true, true, true]) (vr := []) l2 trivial rfl
+  have b := ValidHMK.leaf (ok := fun _ _ _ => True) (p := false) (vb := [false, false, false, false]) (vr := []) l3 trivial rfl
+  have := (c10_parse_embedded (m := 0) l1 (by simp) a b [true, false, true] [exCell]).2.1
+  simpa [pre, intKeys, dictSet, natOfBits] using this
+
+end Embedded
 
 /-- a value serialiser for the examples: two copies of the bit -/
 def exSerC10 (v : Bool) : Option Val := some ([v, v], [])
